@@ -195,11 +195,25 @@ def run(ses, rep):
     for oid, m, kind, k in flagged:
         confirm(rep, oid, m, kind, dict(a=a, b=b, ell=ell, sep=sep, nf=k, sh=sh))
     more = measured_values(ses, rep) + text_twice(ses, rep, 4 if quick else 5) + paren_transparency(ses, rep) + comma_comment_relocation(ses, rep)
+    # a collapse guard that overlooks a comment position: the comment is kept, but pass 1 prints it on the collapsed line / in front of `end`,
+    # where pass 2 finds it INSIDE the body and no longer collapses (C03's kernel H, shared)
+    from . import c03
+    try:
+        more += [(oid, what, "collapse", info) for oid, what, kind, info in c03.collapse_guards(ses, rep)]
+    except Inconclusive as e:
+        rep.add("collapse-guards/encodable", "inconclusive", str(e)[:300], nontrivial=False)
+    # require sorting: a group boundary decided on INPUT line numbers must be one the output reproduces (C12's grouping kernel: the gap is
+    # measured from the END of the previous require - a wrapped require is printed on one line, so its start line would move the boundary)
+    from . import c12
+    try:
+        more += [(oid, what, "sort-grouping", info) for oid, what, kind, info in c12.grouping(ses, rep)]
+    except Inconclusive as e:
+        rep.add("sort-grouping/encodable", "inconclusive", str(e)[:300], nontrivial=False)
     seen = {}
     for oid, what, kind, info in more:
         key = (kind, json.dumps(info, sort_keys=True))
         if key not in seen:
-            seen[key] = replay_measure(info) if kind == "measure" else replay_paren(info) if kind == "paren" else replay_relocation(info) if kind == "relocation" else replay_text(info)
+            seen[key] = replay_measure(info) if kind == "measure" else replay_paren(info) if kind == "paren" else replay_relocation(info) if kind == "relocation" else replay_collapse(info) if kind == "collapse" else replay_sort_grouping(info) if kind == "sort-grouping" else replay_text(info)
         v, rec = seen[key]
         if v is None:
             rep.add(oid, "inconclusive", f"{what}: two formatting passes agree on the native build ({rec})")
@@ -279,6 +293,44 @@ def replay_paren(info):
         if rc2 != 0 or out2 != out1:
             return f"{flags}: second pass changes {out1!r} into {out2!r}", {"source": src, "flags": flags, "pass1": out1, "pass2": out2}
     return None, {"tried": len(PAREN_PROGRAMS)}
+
+
+COLLAPSE_PROGRAMS = [
+    "local f = function(x)\n\treturn x * 2\n\t-- c\nend\n", "local t = {\n\tf = function(x)\n\t\treturn x\n\t\t-- note\n\tend,\n}\n", "call(function()\n\treturn 1\n\t--[[ b ]]\nend)\n",
+    "local f = function() -- c\n\treturn 1\nend\n", "local f = function()\n\treturn 1 -- c\nend\n", "local f = function(a -- c\n)\n\treturn 1\nend\n",
+    "if x then\n\treturn; -- c\nend\n", "if x then -- c\n\treturn\nend\n", "if x then\n\tf() -- c\nend\n", "local g = function()\n\tcall(); -- c\nend\n",
+    "function M.f()\n\treturn 1\n\t-- trailing note\nend\n", "local function h()\n\tx = 1\n\t-- c\nend\n",
+]
+
+
+def replay_sort_grouping(info):
+    binp = common.native_build("default")
+    R = lambda n: f'local {n} = require("{n}")\n'
+    progs = ['local c = require(\n\t"c"\n)\n' + R("b") + R("a"), R("z") + 'local m = require(\n\t"m"\n)\n' + R("k") + R("a"),
+             'local S = game:GetService(\n\t"S"\n)\nlocal R = game:GetService("R")\nlocal A = game:GetService("A")\n', R("b") + R("a") + "\n" + R("d") + R("c"),
+             R("b") + "-- comment\n" + R("a"), 'local c = require("c") -- note\n' + R("b") + "\n\n" + R("a")]
+    for src in progs:
+        rc1, out1, _ = common.run_stylua(binp, src, ["--sort-requires"])
+        if rc1 != 0:
+            continue
+        rc2, out2, _ = common.run_stylua(binp, out1, ["--sort-requires"])
+        if rc2 != 0 or out2 != out1:
+            return f"--sort-requires: second pass changes {out1!r} into {out2!r}", {"source": src, "flags": ["--sort-requires"], "pass1": out1, "pass2": out2}
+    return None, {"tried": len(progs)}
+
+
+def replay_collapse(info):
+    binp = common.native_build("default")
+    for src in COLLAPSE_PROGRAMS:
+        for flags in (["--collapse-simple-statement", "Always"], ["--collapse-simple-statement", "FunctionOnly"], ["--collapse-simple-statement", "ConditionalOnly"],
+                      ["--collapse-simple-statement", "Always", "--column-width", "40"]):
+            rc1, out1, _ = common.run_stylua(binp, src, flags)
+            if rc1 != 0:
+                continue
+            rc2, out2, _ = common.run_stylua(binp, out1, flags)
+            if rc2 != 0 or out2 != out1:
+                return f"{flags}: second pass changes {out1!r} into {out2!r}", {"source": src, "flags": flags, "pass1": out1, "pass2": out2}
+    return None, {"tried": len(COLLAPSE_PROGRAMS)}
 
 
 class _Triv:
